@@ -10,7 +10,7 @@ Anchors
   VC_ENTRY_f      directly after the opening brace of the definition of f
   VC_PRE_f_k      directly before the k-th loop keyword (for/while/do, in source order) of f; the loop is
                   wrapped in an extra block "{ VC_PRE ... loop ... }" (scope for ghost entry copies)
-  VC_LOOP_f_k     between the loop header's ')' and its body (do-while: between 'while (...)' and ';')
+  VC_LOOP_f_k     between the loop header's ')' and its body (do-while: between 'do' and the body)
   VC_TOP_f_k      directly after the opening brace of the loop body
   VC_END_f_k      directly before the closing brace of the loop body
 """
@@ -205,7 +205,7 @@ def loops(m, lo, hi):
             p = skip_ws(m, w + 5)
             q = match(m, p, '(', ')')
             semi = m.index(';', q)
-            res.append(dict(kw=pos, kind='do', hdr_end=q + 1, body_open=b if m[b] == '{' else None,
+            res.append(dict(kw=pos, kind='do', hdr_end=mm.end(), body_open=b if m[b] == '{' else None,
                             body_close=match(m, b, '{', '}') if m[b] == '{' else None, end=semi + 1))
     return res
 
